@@ -7,7 +7,7 @@ VERIF = os.path.dirname(os.path.dirname(os.path.abspath(__file__)))
 COMMON_NOTE = (
     "Trusted: Coq 8.16.1 kernel + stdlib (vm_compute used for correspondence runs and witnesses, no "
     "native_compute, no axioms: every theorem is 'Closed under the global context', re-printed by "
-    "Print Assumptions on every run); tools/extract_constants.py (ast translator) + Anchors.v; the "
+    "Print Assumptions on every run); tools/extract_constants.py (ast translator) + Anchors{Edit,Build,Path,Diff}.v (each check depends only on the anchors of its own models); the "
     "Python harness (generators, canonical forms, Gallina term printer); CPython semantics modelled "
     "in PySlice/PyCall/PyText and validated by differential testing only. The theorems are about "
     "the Gallina model; the model is tied to /repo by the correspondence stream on every run.")
